@@ -1166,3 +1166,33 @@ mod tests {
         }
     }
 }
+
+/// Verification hooks: thin wrappers exposing the crate-private candidate operations.
+#[cfg(feature = "verif")]
+#[doc(hidden)]
+pub mod verif_hooks {
+    use std::ops::Bound;
+
+    use super::{CandidateValue, Range};
+    use crate::ir::FieldValue;
+
+    pub fn intersect(a: &mut CandidateValue<FieldValue>, b: CandidateValue<FieldValue>) {
+        a.intersect(b)
+    }
+    pub fn normalize(a: &mut CandidateValue<FieldValue>) {
+        a.normalize()
+    }
+    pub fn exclude_single_value(a: &mut CandidateValue<FieldValue>, v: &FieldValue) {
+        a.exclude_single_value(v)
+    }
+    pub fn range_new(
+        start: Bound<FieldValue>,
+        end: Bound<FieldValue>,
+        null_included: bool,
+    ) -> Range<FieldValue> {
+        Range::new(start, end, null_included)
+    }
+    pub fn range_intersect(a: &mut Range<FieldValue>, b: Range<FieldValue>) {
+        a.intersect(b)
+    }
+}
